@@ -808,9 +808,7 @@ theorem softLinkAt_inv {s s' : St} {j : Nat} (I : Inv s) (h : softLinkAt s j = .
     exact push_inv I rfl (I.inScope b (List.mem_of_getElem? hb))
 
 /-- the object the view constructor builds from its source `b` -/
-def viewObj (b : Obj) (v : ViewSpec) : Obj :=
-  { kind := v.kind, region := b.region, off := b.off + v.delta.toNat, storage := b.storage,
-    len := v.d0.toNat, stride := v.s0.toNat, len1 := v.d1.toNat, stride1 := v.s1.toNat }
+abbrev viewObj (b : Obj) (v : ViewSpec) : Obj := viewObject b v
 
 /-- a view constructor that completes has appended `viewObj b v` through `linkNew`, and that view lies inside
     the extent of its source -/
